@@ -867,7 +867,7 @@ func cmdSelftest(args []string) int {
 		fmt.Println("selftest: load failed:", err)
 		return 2
 	}
-	names := []string{"SelftestCore"}
+	names := []string{"SelftestCore", "SelftestModels"}
 	rc := 0
 	for _, name := range names {
 		fn := findHarness(spkgs, name)
